@@ -64,6 +64,9 @@ claimed = {
  "C16": ("enumerated out-of-range/in-range decision table x ALL pivot sequences in two build profiles + proptest, oracle = unwinds iff some position >= length",
          "Every out-of-range position class on every order pattern up to length 6/7 under every pivot sequence, with and without debug assertions/overflow checks; Bins/Grid index by generated cases.",
          "'Every build profile' is sampled as two profiles (all checks on / all off).", "5/C16"),
+ "C20": ("proptest metamorphic relation: canonical owned C-order array vs a second representation (layout / ownership / dimension type) over an adapter table of all public routines",
+         "Every routine of the crate is evaluated on both representations in one case; identical results are demanded for order-based, integer, shape and error outcomes, twice the summation budget for float sums, and value-equality of the designated element for index-returning routines.",
+         "Float tolerances reuse the budgets of C06-C10 (both evaluations are individually within budget of the exact value).", "5/C20"),
 }
 
 checks = []
@@ -82,6 +85,7 @@ for i in ids:
             "technique": "property-based testing: " + tech,
         })
 na = [{"property_id": i, "reason": "check not built yet in this revision of /verif (planned: property-based check, see DESIGN.md section 5); not claimed until it runs silent on the unchanged tree"} for i in ids if i not in claimed]
+
 hook_commits = subprocess.run(["git","-C","/repo","log","--format=%h","--grep=^verif hooks"],capture_output=True,text=True).stdout.split()
 m = {
  "version": 1,
